@@ -1042,3 +1042,10 @@ def run(chk):
         check_k5(chk, m, cfg)
         check_k6_k7(chk, m, cfg)
         check_k8(chk, m, cfg, L)
+    # every delivery route goes through the console's ring buffer: its producer/consumer discipline is C05's
+    from . import C05
+    chk.rule_prefix = "ring."
+    chk.rule_filter = lambda r: r.startswith(("R1", "R2", "R3", "R4", "R5"))
+    C05.run_config(chk, "default")
+    chk.rule_prefix = ""
+    chk.rule_filter = None
